@@ -66,7 +66,7 @@ func schnorrPubArgs(prog *load.Program, px, P *sym.Term) func(ex *absint.Exec, s
 	return func(ex *absint.Exec, st *absint.State, args []absint.Val) {
 		kp := args[0].(*absint.Ptr)
 		ix := FieldIndex(prog, models.BitcoinPkg, "SchnorrPublicKey", "xBytes")
-		ex.StoreLeaf(st, ex.FieldPtr(kp, ix), ex.BytesToSlice(st, px, "xBytes"), 0)
+		storeBytesField(ex, st, kp, prog, models.BitcoinPkg, "SchnorrPublicKey", ix, px, "xBytes")
 		_ = P
 	}
 }
@@ -231,7 +231,7 @@ func c13Import(c *Ctx, prog *load.Program) {
 			if pt == nil || !sym.Equal(ResolveIte(pt, asg), sym.App(sym.Point, "sec1_decode", enc)) {
 				return "stored point is " + absint.ValString(pt)
 			}
-			xb, _ := resolveChoice(fieldVal(r.Ex, e.St, pk, prog, models.BitcoinPkg, "SchnorrPublicKey", "xBytes"), asg).(*absint.SliceVal)
+			xb, _ := resolveChoice(bytesField(r.Ex, e.St, pk, prog, models.BitcoinPkg, "SchnorrPublicKey", "xBytes"), asg).(*absint.SliceVal)
 			if xb == nil || xb.Base == nil {
 				return "no xBytes"
 			}
@@ -305,7 +305,7 @@ func c13Invariant(c *Ctx, prog *load.Program, rule string) {
 					if pp, _ := ptV.(*absint.Ptr); pp == nil || pp.Obj.Origin.Kind != "local" {
 						return "the stored point object is the caller's, not a copy"
 					}
-					xb := bytesUnder(r.Ex, e.St, resolveChoice(fieldVal(r.Ex, e.St, pk, prog, models.BitcoinPkg, "SchnorrPublicKey", "xBytes"), asg), asg)
+					xb := bytesUnder(r.Ex, e.St, resolveChoice(bytesField(r.Ex, e.St, pk, prog, models.BitcoinPkg, "SchnorrPublicKey", "xBytes"), asg), asg)
 					if !sym.Equal(xb, models.ToBytes(sym.Fp, models.XCoord(want))) {
 						return "xBytes is " + xb.String()
 					}
@@ -373,7 +373,7 @@ func c13Invariant(c *Ctx, prog *load.Program, rule string) {
 				if pp, _ := ptV.(*absint.Ptr); pp == nil || pp.Obj.Origin.Kind != "local" {
 					return "the public point object is shared with the ECDSA key"
 				}
-				xbV, _ := resolveChoice(fieldVal(r.Ex, st, pub, prog, models.BitcoinPkg, "SchnorrPublicKey", "xBytes"), asg).(*absint.SliceVal)
+				xbV, _ := resolveChoice(bytesField(r.Ex, st, pub, prog, models.BitcoinPkg, "SchnorrPublicKey", "xBytes"), asg).(*absint.SliceVal)
 				if xbV == nil || xbV.Base == nil || xbV.Base.Obj.Origin.Kind != "local" {
 					return "xBytes is shared with the ECDSA key"
 				}
